@@ -211,3 +211,26 @@ Fixpoint drain (fuel k : nat) (s : st) : bytes * option err :=
 (* bytes returned by the reads of a history *)
 Fixpoint read_bytes (l : list (bytes * option err)) : bytes :=
   match l with [] => [] | (d, _) :: r => d ++ read_bytes r end.
+
+(* ---------- two requests: each one observes what it observes alone ---------- *)
+(* the calls made on one of the two requests, and their outputs *)
+Fixpoint calls_of (b : bool) (ops : list op2) : list op :=
+  match ops with
+  | [] => []
+  | (b', o) :: r => if Bool.eqb b' b then o :: calls_of b r else calls_of b r
+  end.
+
+Fixpoint outs_of (b : bool) (ops : list op2) (outs : list out) : list out :=
+  match ops, outs with
+  | (b', _) :: r, x :: xs => if Bool.eqb b' b then x :: outs_of b r xs else outs_of b r xs
+  | _, _ => []
+  end.
+
+(* the judgement of an interleaved history: the calls made on each request, with their outputs and the Close
+   calls its own stream received, form a history the property allows for that request by itself - whatever was
+   done to the other request in between (in particular after this one's body was closed) *)
+Definition pair_ok (cA : cfg) (stepsA : list rstep) (cB : cfg) (stepsB : list rstep)
+           (ops : list op2) (outs : list out) (closesA closesB : nat) : bool :=
+  Nat.eqb (length outs) (length ops) &&
+  history_ok cA stepsA (calls_of false ops) (outs_of false ops outs) closesA &&
+  history_ok cB stepsB (calls_of true ops) (outs_of true ops outs) closesB.
